@@ -99,7 +99,7 @@ def finish(ctx, not_decided, assumptions):
     fails = [a for a in agg.values() if not a["ok"]]
     new = [a for a in fails if a["key"] not in known_keys]
     kn = [a for a in fails if a["key"] in known_keys]
-    evdir = os.path.join(VERIF, "evidence")
+    evdir = os.environ.get("VF_EVIDENCE_DIR") or os.path.join(VERIF, "evidence")
     os.makedirs(evdir, exist_ok=True)
     vdir = os.path.join(evdir, prop + ".violations")
     if os.path.isdir(vdir):
